@@ -105,7 +105,7 @@ type site struct{ target, syscall string }
 var sites = []site{{"src", "newfstatat"}, {"src", "openat"}, {"src", "fstat"}, {"src", "read"}, {"src", "close"}, {"dst", "openat"}, {"dst", "write"}, {"dst", "write"}, {"dst", "close"}}
 
 var allSrcKinds = []string{"file", "missing", "dir", "mode000", "symlink_ok", "dangling", "loop", "spacename", "nonascii_name", "longname", "same_as_dst", "emptyarg", "fifo", "stdin", "relative", "dotslash", "barename", "dotdot_via_symlink", "other_readable", "parent_is_file", "trailing_slash"}
-var allDstKinds = []string{"absent", "empty", "shorter", "equal", "longer", "old_image", "ro_file", "ro_dir", "parent_missing", "parent_is_file", "is_dir", "symlink_file", "dangling_symlink", "dev_full", "relative", "dotdot", "longname", "emptyarg", "dev_null", "trailing_slash", "dir_no_search", "hardlink_to_src", "symlink_to_src", "barename", "rw_file_in_ro_dir", "dotdot_via_symlink", "other_writable", "symlink_loop", "fifo"}
+var allDstKinds = []string{"absent", "empty", "shorter", "equal", "longer", "old_image", "ro_file", "ro_dir", "parent_missing", "parent_is_file", "is_dir", "symlink_file", "dangling_symlink", "dev_full", "relative", "dotdot", "longname", "emptyarg", "dev_null", "trailing_slash", "dir_no_search", "hardlink_to_src", "symlink_to_src", "barename", "rw_file_in_ro_dir", "dotdot_via_symlink", "other_writable", "symlink_loop", "fifo", "image_with_tail", "image_prefix", "same_image"}
 var allShapes = []string{"src-dst", "src-dst-lst", "none", "src", "four", "d-src-dst", "d-only", "v", "help", "badflag", "src-dst-dashlst", "src-dst-v", "d-src"}
 var allLstKinds = []string{"ok", "parent_missing", "same_as_dst", "existing", "same_as_src", "is_dir", "dev_full", "symlink_to_dst", "symlink_to_src", "ro_existing"}
 
@@ -292,8 +292,8 @@ func (c *c19Ctx) genScenario(seed uint64, progs []*c19Prog) *Scenario {
 		s.Break = 1 + r.Intn(4)
 		s.BreakLine = r.Intn(len(s.Header) + len(s.Body))
 	}
-	dstKinds := []string{"absent", "empty", "shorter", "equal", "longer", "old_image", "ro_file", "ro_dir", "parent_missing", "parent_is_file", "is_dir", "symlink_file", "dangling_symlink", "dev_full", "relative", "dotdot", "longname", "emptyarg", "dev_null", "trailing_slash", "dir_no_search", "hardlink_to_src", "symlink_to_src", "barename", "rw_file_in_ro_dir", "dotdot_via_symlink", "other_writable", "symlink_loop", "fifo"}
-	s.DstKind = dstKinds[r.weighted([]int{35, 4, 8, 5, 10, 6, 3, 3, 3, 2, 3, 4, 3, 3, 4, 3, 1, 1, 2, 2, 2, 2, 2, 4, 3, 3, 2, 2, 4})]
+	dstKinds := []string{"absent", "empty", "shorter", "equal", "longer", "old_image", "ro_file", "ro_dir", "parent_missing", "parent_is_file", "is_dir", "symlink_file", "dangling_symlink", "dev_full", "relative", "dotdot", "longname", "emptyarg", "dev_null", "trailing_slash", "dir_no_search", "hardlink_to_src", "symlink_to_src", "barename", "rw_file_in_ro_dir", "dotdot_via_symlink", "other_writable", "symlink_loop", "fifo", "image_with_tail", "image_prefix", "same_image"}
+	s.DstKind = dstKinds[r.weighted([]int{35, 4, 8, 5, 10, 6, 3, 3, 3, 2, 3, 4, 3, 3, 4, 3, 1, 1, 2, 2, 2, 2, 2, 4, 3, 3, 2, 2, 4, 6, 3, 3})]
 	if (s.DstKind == "hardlink_to_src" || s.DstKind == "symlink_to_src") && s.SrcKind != "file" {
 		s.DstKind = "absent"
 	}
@@ -313,7 +313,7 @@ func (c *c19Ctx) genScenario(seed uint64, progs []*c19Prog) *Scenario {
 	s.SrcMtime = int64(r.Intn(2000000000)) + 1
 	plainDst := false
 	switch s.DstKind {
-	case "absent", "", "empty", "shorter", "equal", "longer", "old_image":
+	case "absent", "", "empty", "shorter", "equal", "longer", "old_image", "image_with_tail", "image_prefix", "same_image":
 		plainDst = true
 	}
 	if plainDst && r.Chance(1, 25) {
